@@ -3320,9 +3320,9 @@ def check(ctx):
         if i % 3 == 2:
             sess['buffers'] = True
     gs = Gen(ctx.rng.fork('r15r16'), ctx.tier)
-    sessions += [gs.buffer_session(ext=bool(i % 2), flavour=(i // 2) % 3) for i in range(12 if quick else 80)]
+    sessions += [gs.buffer_session(ext=bool(i % 2), flavour=(i // 2) % 3) for i in range(12 if quick else 60)]
     # R15: one object taken through close-but-distinct values of ONE parameter
-    for rep in range(1 if quick else 6):
+    for rep in range(1 if quick else 4):
         for param, closeness in R15_KINDS:
             # (precoders, powers: also with one power for all users — the scalar branch of the P setter, and
             # set_precoders(F=…) without a power vector)
